@@ -642,16 +642,48 @@ func ruleBTRec(c *Ctx) {
 		}
 	}
 	key := fnKey(fn)
+	// the record builder may delegate to helpers that are not builders themselves (one per field, one for the
+	// name map): the rule follows the group. mapFn is where the name map is filled; fn becomes the function that
+	// builds a field's codec and entry.
+	group := recordBuilderGroup(P, fn)
+	root, rootTyp := fn, typ
+	mapFn := fn
 	// the buildCodec call for a field
 	var bc *ssa.Call
-	for _, cs := range callsIn(fn) {
-		if cs.Static != nil && isCodecErrorSig(P, cs.Static.Signature) && cs.Value() != nil {
-			bc = cs.Value()
+	for _, g := range group {
+		for _, cs := range callsIn(g) {
+			if cs.Static != nil && isCodecErrorSig(P, cs.Static.Signature) && cs.Value() != nil {
+				bc, fn = cs.Value(), g
+			}
+		}
+		for _, b := range g.Blocks {
+			for _, in := range b.Instrs {
+				if mu, ok := in.(*ssa.MapUpdate); ok {
+					if mt, ok := mu.Map.Type().Underlying().(*types.Map); ok && typeKey(mt.Elem()) == "reflect.StructField" {
+						mapFn = g
+					}
+				}
+			}
 		}
 	}
 	if !c.Anchor(bc != nil && typ != nil, "recursive codec construction in the record builder") {
 		return
 	}
+	// the type the name map is built from: the builder's own typ, directly or as the helper's argument
+	mapTyp := rootTyp
+	if mapFn != root {
+		mapTyp = nil
+		for _, cs := range callsIn(root) {
+			if cs.Static == mapFn {
+				for i, prm := range mapFn.Params {
+					if isReflectType(prm.Type()) && i < len(cs.Common.Args) && cs.Common.Args[i] == ssa.Value(rootTyp) {
+						mapTyp = prm
+					}
+				}
+			}
+		}
+	}
+	typ = mapTyp
 	var typeArg ssa.Value
 	for i, prm := range bc.Call.StaticCallee().Params {
 		if isReflectType(prm.Type()) {
@@ -714,10 +746,10 @@ func ruleBTRec(c *Ctx) {
 	srcOK := false
 	if sfSource != nil {
 		// sfSource is an Alloc (sf local) filled from a map lookup; the map's values are typ.Field(i)
-		for _, b := range fn.Blocks {
+		for _, b := range mapFn.Blocks {
 			for _, in := range b.Instrs {
 				if mu, ok := in.(*ssa.MapUpdate); ok {
-					if call, ok := mu.Value.(*ssa.Call); ok && call.Call.IsInvoke() && call.Call.Method.Name() == "Field" && call.Call.Value == ssa.Value(typ) {
+					if call, ok := mu.Value.(*ssa.Call); ok && typ != nil && call.Call.IsInvoke() && call.Call.Method.Name() == "Field" && call.Call.Value == ssa.Value(typ) {
 						srcOK = true
 					} else {
 						srcOK = false
@@ -955,4 +987,26 @@ func ruleBTPure(c *Ctx) {
 		scan(b.Fn, 0)
 		c.Check(bad == "", key, P.pos(b.Fn.Pos()), "no package-level state besides the registry", "a codec builder "+bad+": the codec returned can be one built earlier for a different schema (or type)")
 	}
+}
+
+// recordBuilderGroup: the record builder and the module helpers it calls that
+// are not codec builders themselves (depth 2).
+func recordBuilderGroup(P *Program, root *ssa.Function) []*ssa.Function {
+	seen := map[*ssa.Function]bool{}
+	var out []*ssa.Function
+	var add func(f *ssa.Function, d int)
+	add = func(f *ssa.Function, d int) {
+		if f == nil || seen[f] || f.Blocks == nil || d > 2 {
+			return
+		}
+		seen[f] = true
+		out = append(out, f)
+		for _, cs := range callsIn(f) {
+			if cs.Static != nil && P.isModuleFunc(cs.Static) && cs.Static.Pkg == root.Pkg && !isCodecErrorSig(P, cs.Static.Signature) && cs.Static.Signature.Recv() == nil {
+				add(cs.Static, d+1)
+			}
+		}
+	}
+	add(root, 0)
+	return out
 }
